@@ -400,10 +400,12 @@ def correspond_data(ctx, exe, jobs):
 # ---------------------------------------------------------------- oracle sweep
 def oracle(ctx, pairs, seed_base=0):
     fam, atm, nseq, ndata = {}, {}, {}, {}
+    firsts = []
     for i, p in enumerate(pairs):
         fam[p.family] = fam.get(p.family, 0) + 1
         k = '%d->%d' % (G.atm_code(p.src), G.atm_code(p.dst)); atm[k] = atm.get(k, 0) + 1
-        O.check_mapping(ctx, p.case, p.src, p.dst)
+        r1 = O.check_mapping(ctx, p.case, p.src, p.dst)
+        if r1 is not None and p.src.num_blocks + p.dst.num_blocks <= 4000: firsts.append((i, r1))
         O.check_self_identity(ctx, p.case, 'src' if i % 2 else 'dst', p.src if i % 2 else p.dst)
         if i < 6: ctx.sample({'family': p.family, 'source': '%d cols x %d layers, atm %d, conv %d' % (
             p.src.num_columns, p.src.num_layers - 1, G.atm_code(p.src), p.src.convention),
@@ -412,11 +414,19 @@ def oracle(ctx, pairs, seed_base=0):
         if not big or i % 3 == 0:
             case = {'kind': 'incon', 'src': p.sspec, 'dst': p.dspec, 'nvar': 1 + (i + seed_base) % 6, 'vseed': seed_base + i}
             O.check_incon(ctx, case, p.src, p.dst, ctx.repo)
+            if not big:      # the same with the source populated through `inc.variable = array` (blocks hold views of the caller's array)
+                O.check_incon(ctx, dict(case, populate='array'), p.src, p.dst, ctx.repo)
             if O.atm_finding_class(p.src, p.dst):
                 O.check_incon(ctx, dict(case, explicit=True), p.src, p.dst, ctx.repo)
         if p.src.num_blocks <= 4000:
-            case = {'kind': 'generators', 'geo': p.sspec, 'gseed': seed_base + i, 'rename': bool(i & 1), 'preserve': bool(i & 2)}
+            case = {'kind': 'generators', 'geo': p.sspec, 'gseed': seed_base + i, 'rename': bool(i & 1), 'preserve': bool(i & 2),
+                    'all_columns': p.src.num_columns <= 120}      # a top and a bottom generator in EVERY column of small geometries
             O.check_generators_identity(ctx, case, p.src, O.identical_copy(p.sspec, p.src, ctx.repo))
+        if p.dst.num_blocks <= 4000 and p.family != 'identical':
+            # ... and of the target geometry (often the refined / re-surfaced one of the pair)
+            case = {'kind': 'generators', 'geo': p.dspec, 'gseed': seed_base + 4000 + i, 'rename': bool(i & 2), 'preserve': bool(i & 1),
+                    'all_columns': p.dst.num_columns <= 120}
+            O.check_generators_identity(ctx, case, p.dst, O.identical_copy(p.dspec, p.dst, ctx.repo))
         if p.src.num_blocks + p.dst.num_blocks <= 4000:
             case = {'kind': 'data', 'src': p.sspec, 'dst': p.dspec, 'gseed': seed_base + 900 + i, 'rename': bool(i & 1), 'preserve': bool(i & 2)}
             r = O.check_data_transfer(ctx, case, p.src, p.dst)
@@ -427,15 +437,22 @@ def oracle(ctx, pairs, seed_base=0):
             r = random.Random(1000003 * (seed_base + 1) + i)
             s2, d2 = G.build_geo(p.sspec, ctx.repo), G.build_geo(p.dspec, ctx.repo)
             ms, md = G.moves(r, s2), G.moves(r, d2)
+            sn = G.snap_moves(r, s2)
             case = {'kind': 'sequence', 'family': p.family, 'src': p.sspec, 'dst': p.dspec,
-                    'then_src': [ms[i % len(ms)]], 'then_dst': ([md[(i // 3) % len(md)]] if (i // 3) % 4 else []),
+                    'then_src': (sn if sn and i % 4 == 3 else [ms[i % len(ms)]]), 'then_dst': ([md[(i // 3) % len(md)]] if (i // 3) % 4 else []),
                     'nvar': 1 + i % 6, 'vseed': seed_base + i}
             O.check_sequence(ctx, case, s2, d2, ctx.repo)
-            nseq[case['then_src'][0][0]] = nseq.get(case['then_src'][0][0], 0) + 1
+            kseq = '+'.join(o[0] for o in case['then_src']); nseq[kseq] = nseq.get(kseq, 0) + 1
+    # second pass, shuffled: the same objects mapped again after everything else happened in this process
+    order = list(range(len(firsts))); random.Random(4711 + seed_base).shuffle(order)
+    for j in order:
+        i, r1 = firsts[j]
+        O.check_repeat(ctx, pairs[i].case, pairs[i].src, pairs[i].dst, first=r1)
+    ctx.oracle_cases('block-mapping-second-pass-shuffled', len(order))
     ctx.oracle_cases('block-mapping', len(pairs), families=fam, atmosphere_source_to_target=atm)
     ctx.oracle_cases('self-mapping-identity', len(pairs))
     ctx.oracle_cases('incon-transfer', len(pairs))
-    ctx.oracle_cases('generator-transfer-identity', len(pairs))
+    ctx.oracle_cases('generator-transfer-identity', len(pairs), geometries='source and target of every pair with <= 4000 blocks; a top and a bottom generator in every column when <= 120 columns')
     ctx.oracle_cases('model-transfer', sum(ndata.values()), results=ndata)
     ctx.oracle_cases('statement-after-in-place-moves', sum(nseq.values()), source_edit_after_first_mapping=nseq)
 
@@ -525,6 +542,8 @@ def replay(ctx, data):
     if kind == 'generators':
         g1 = G.build_geo(inp['geo'], ctx.repo); g2 = O.identical_copy(inp['geo'], g1, ctx.repo)
         O.check_generators_identity(ctx, inp, g1, g2)
+    elif kind == 'repeat':
+        O.check_repeat(ctx, inp, G.build_geo(inp['src'], ctx.repo), G.build_geo(inp['dst'], ctx.repo))
     elif kind == 'data':
         O.check_data_transfer(ctx, inp, G.build_geo(inp['src'], ctx.repo), G.build_geo(inp['dst'], ctx.repo))
     elif kind == 'sequence':
